@@ -97,7 +97,13 @@ let run (st : stream) (b : Buffer.t) : unit =
               | Some v -> desc := vid v; lift (replace_vehicle_by_dummy nw !s v) (fun s2 -> OOk (s2, "")))
            | "addpath" ->
              let k = next_int st in let nodes = read_nodes () in
-             (match pick real k with
+             let ((_, osd), oed) = nw.nw_overflow in
+             let on_overflow v = match tour_of !s v with
+               | Ok t -> nid_cmp (first_node t) osd = Eq || nid_cmp (last_node t) oed = Eq | _ -> false in
+             let pk = if k >= 5000 then pick (List.filter on_overflow real) (k - 5000)
+               else if k >= 1000 then (match pick3 k with Some v when List.exists (fun x -> vid_eqb x v) real -> Some v | _ -> None)
+               else pick real k in
+             (match pk with
               | None -> OSkip
               | Some v ->
                 desc := Printf.sprintf "%s %s" (vid v) (ids nodes);
